@@ -15,7 +15,7 @@ EXPLANATION = ('Theorems about the Lean cycle model for programs whose cycle mem
                'value is the executable SCC reference (`c13_reference`, Boolean reachability proved complete: `c13_onCycle_iff`). The model '
                'drops all memos at a write, so histories ACROSS revisions are covered by the oracle only. Tied to salsa by generated fallback '
                'programs x histories compared with the Lean model and with an independent SCC oracle; the known history-dependence finding '
-               '(kf1, later revisions only) is reported as KNOWN-FINDING.')
+               '(kf1, later revisions only) is reported as KNOWN-FINDING. The revision-aware model `CycleRev` is compared byte for byte with salsa on every request of every revision (it reproduces known finding kf1: `c13rev_history_dependence_witness`, `c13rev_lazy_finalisation`); `c13rev_reference_if_closed` certifies answers of all-fallback programs per run.')
 ASSUMPTIONS = ['`c13_entry_independent` / `c13_reference` assume every node on a cycle is a fallback node (no `panic` member on a cycle)',
                'cross-revision reuse is not in the Lean model; known finding fb-participant-after-revalidated-head lives there (key narrowed: '
                'the requested node must lie on, or reach, a cycle under the current inputs)']
